@@ -1,10 +1,21 @@
-"""C15 — A PDO value set by the producer is the value the consumer reads."""
+"""C15 — A PDO value set by the producer is the value the consumer reads.
+
+    x <producer maps> <consumer maps> <step|step|…>        map: <cob|n>,<enabled>,<rtr>,<type:bits/…>
+
+    w.<k>.<i>.<kind>.<v>  producer variable write      v.<k>.<i>.<kind>.<v>  consumer variable write
+    t.<k>                 producer map transmit()      x.<cob>.<hex> / y.<cob>.<hex>.<dt>  third-party frame
+    r.<k> / p.<k>         read consumer / producer map q.<k>  remote_request()    s.<k>  subscribe()
+    c.<k>.<cob|n>.<en>.<rtr> / d.<k>.<cob>.<en>.<rtr>  reconfigure by attributes / from the dictionary
+    b.<k>.<tag>           add_callback                 W.<k>.<cob:hex;…|->  wait_for_reception with arrivals
+    S.<P|C>.<k>.<seconds|n>  start(period) of the periodic transmission of producer / consumer map k
+    E.<P|C>.<k>  stop()   U.<P|C>.<k>  update()        T.<k>.<1|0>  older spelling of S.C.<k>.7 / E.C.<k>
+"""
 import logging
 
 import canopen
 from canopen import objectdictionary as od
 
-from props import c04, c05
+from props import c04, c05, c17
 
 logging.disable(logging.CRITICAL)
 
@@ -20,6 +31,11 @@ THEOREMS = [
     "Canopen.C15.transmit_frame",
     "Canopen.C15.rtr_only_if_enabled_and_allowed",
     "Canopen.C15.wait_wakes",
+    "Canopen.C15.transmit_any_running",
+    "Canopen.C15.periodic_calls_erased",
+    "Canopen.C15.transmit_independent_of_periodic",
+    "Canopen.C15.producer_consumer_periodic",
+    "Canopen.C15.start_stop_reception",
 ]
 FINGERPRINT = c05.FINGERPRINT + [
     "canopen.pdo.base:PdoMap.on_message",
@@ -30,6 +46,9 @@ FINGERPRINT = c05.FINGERPRINT + [
     "canopen.pdo.base:PdoMap.wait_for_reception",
     "canopen.pdo.base:PdoMap.start",
     "canopen.pdo.base:PdoMap.stop",
+    "canopen.pdo.base:PdoMap.update",
+    "canopen.network:Network.send_periodic",
+    "canopen.network:PeriodicMessageTask",
     "canopen.network:Network.subscribe",
     "canopen.network:Network.notify",
     "canopen.network:Network.send_message",
@@ -38,10 +57,14 @@ TRUSTED = c05.TRUSTED + [
     "threading.Condition modelled as monitor: wait_for_reception is a function of the frames delivered while "
     "waiting (scripted through a fake condition; the threaded variant is evidence only)",
     "Network dispatch as in C10 (subscriber lists per COB-ID, append-if-absent)",
+    "python-can's cyclic tasks are replaced by C17's recording tasks (no timer fires, so no cyclic frame "
+    "reaches the bus during a history); what a running task sends is C17's subject",
 ]
 ASSUMPTIONS = ["timestamps are the integers the harness injects", "callbacks neither raise nor re-enter the map"]
 RULE = ("op x: a history over producer maps and consumer maps (distinct and colliding COB-IDs) of write / transmit / "
-        "third-party frame / read / remote request / subscribe / reconfigure / add callback / start-stop / wait; "
+        "third-party frame / read / remote request / subscribe / reconfigure / add callback / wait, and "
+        "start(period) / stop / update of the periodic transmission on maps of either side (periods 1 s .. 1 day, "
+        "0 and none; recording bus, no timer), so that every other step runs with and without a running task; "
         "layouts and values as in C05; non-trivial = at least one frame was delivered to a subscribed map")
 
 ACCESS_LEN = c05.lens_for
@@ -70,17 +93,13 @@ def make_od(nmaps):
     return d
 
 
-class DummyTask:
-    def stop(self):
-        pass
-
-    def update(self, data):
-        pass
-
-
 class Net(canopen.Network):
-    def __init__(self, rig, role):
-        super().__init__()
+    """single-shot frames are recorded (and, from the producing side, delivered to the consuming network);
+    periodic transmissions go through the library's own `send_periodic` / `PeriodicMessageTask` onto C17's
+    recording bus: tasks are recorded, no timer runs, so no cyclic frame interferes with a history"""
+
+    def __init__(self, rig, role, modify):
+        super().__init__(c17.FakeBus(modify))
         self.rig, self.role = rig, role
 
     def send_message(self, can_id, data, remote=False):
@@ -89,9 +108,6 @@ class Net(canopen.Network):
         self.rig.sent.append((self.role, can_id, bytes(data), remote))
         if self.role == "P" and not remote:
             self.rig.deliver(can_id, bytes(data))
-
-    def send_periodic(self, can_id, data, period, remote=False):
-        return DummyTask()
 
 
 class FakeCondition:
@@ -127,10 +143,10 @@ def parse_maps(s):
 
 
 class Rig:
-    def __init__(self, pmaps, cmaps):
+    def __init__(self, pmaps, cmaps, modify=True):
         n = max(len(pmaps), len(cmaps), 1)
         self.sent, self.cblog, self.clock = [], [], 100
-        self.np, self.nc = Net(self, "P"), Net(self, "C")
+        self.np, self.nc = Net(self, "P", modify), Net(self, "C", modify)
         self.prod = canopen.RemoteNode(1, make_od(n))
         self.cons = canopen.RemoteNode(1, make_od(n))
         self.np.add_node(self.prod)
@@ -174,7 +190,8 @@ def show_log(l):
 
 def run_impl(op):
     a = op.split(" ")
-    rig = Rig(parse_maps(a[1]), parse_maps(a[2]))
+    # the bus flavour (cyclic tasks with / without modify_data) is fixed by the configuration, not by the steps
+    rig = Rig(parse_maps(a[1]), parse_maps(a[2]), modify=len(a[1]) % 2 == 0)
     outs = []
     for tok in a[3].split("|"):
         p = tok.split(".")
@@ -203,8 +220,13 @@ def step(rig, p):
         del rig.cblog[:]
         n0 = len(rig.sent)
         m.transmit()
-        _, cid, data, _ = rig.sent[n0]
-        return f"tx:{cid}:{c04.hx(data)}>{show_log(rig.cblog)}"
+        frames = rig.sent[n0:]
+        if len(frames) == 1 and not frames[0][3]:
+            _, cid, data, _ = frames[0]
+            return f"tx:{cid}:{c04.hx(data)}>{show_log(rig.cblog)}"
+        # anything but exactly one data frame: say what went out
+        return ("txn:" + str(len(frames)) + "".join(f":{'R' if r else 'D'}{cid}:{c04.hx(data)}" for _, cid, data, r in frames)
+                + f">{show_log(rig.cblog)}")
     if k == "x":
         del rig.cblog[:]
         rig.deliver(int(p[1]), c04.unhx(p[2]))
@@ -265,11 +287,22 @@ def step(rig, p):
         rig.cm[idx].add_callback(lambda mp, idx=idx, tag=tag: rig.cblog.append((idx, tag)))
         return "ok"
     if k == "T":
+        # older spelling of S.C.<k>.7 / E.C.<k>
         m = rig.cm[int(p[1])]
         if p[2] == "1":
             m.start(7)
         else:
             m.stop()
+        return "ok"
+    if k in ("S", "E", "U"):
+        # periodic transmission of a map of the producing (P) or consuming (C) side
+        m = (rig.pm if p[1] == "P" else rig.cm)[int(p[2])]
+        if k == "S":
+            m.start(None if p[3] == "n" else int(p[3]))
+        elif k == "E":
+            m.stop()
+        else:
+            m.update()
         return "ok"
     if k == "W":
         m = rig.cm[int(p[1])]
@@ -407,7 +440,8 @@ def oracle(op, out):
             log = deliver(m.cob, data)
             exp = f"tx:{m.cob}:{c04.hx(data)}>{show_log(log)}"
             if o != exp:
-                return f"transmit {tok} gave {o}, expected {exp} (COB-ID and current data; callbacks once each)"
+                return (f"transmit {tok} gave {o}, expected {exp} (exactly one frame: COB-ID and current data; callbacks "
+                        f"once each){' while a periodic transmission of the map runs' if m.transmitting else ''}")
         elif k == "x":
             log = deliver(int(p[1]), c04.unhx(p[2]))
             if o != f">{show_log(log)}":
@@ -472,10 +506,32 @@ def oracle(op, out):
                     lst.append(int(p[1]))
         elif k == "b":
             cons[int(p[1])].cbs.append(int(p[2]))
-        elif k == "T":
-            cons[int(p[1])].transmitting = p[2] == "1"
-            if p[2] == "1":
-                cons[int(p[1])].period = 7
+        elif k in ("T", "S", "E", "U"):
+            # periodic transmission: start(period) stops a running task, keeps a given period, and needs a
+            # period (documented ValueError otherwise); stop() ends it; update() changes nothing on the map
+            if k == "T":
+                m, call, per = cons[int(p[1])], ("S" if p[2] == "1" else "E"), 7
+            else:
+                m, call = (prod if p[1] == "P" else cons)[int(p[2])], k
+                per = (None if p[3] == "n" else int(p[3])) if k == "S" else None
+            if call == "S":
+                m.transmitting = False
+                if per is not None:
+                    m.period = per
+                if not m.period:
+                    if o != "err":
+                        return f"start {tok} without a period gave {o}, expected err"
+                elif m.cob is None:
+                    m.transmitting = o == "ok"       # no COB-ID to transmit on: either answer is taken
+                else:
+                    if o != "ok":
+                        return f"start {tok} with period {m.period} failed: {o}"
+                    m.transmitting = True
+            else:
+                if o != "ok":
+                    return f"{'stop' if call == 'E' else 'update'} {tok} failed: {o}"
+                if call == "E":
+                    m.transmitting = False
         elif k == "W":
             m = cons[int(p[1])]
             m.received = False
@@ -526,6 +582,18 @@ def map_token(cob, en, rtr, lay):
     return f"{'n' if cob is None else cob},{int(en)},{int(rtr)}," + ("/".join(f"{t}:{l}" for t, l in lay) if lay else "-")
 
 
+PERIODS = ["1", "7", "3600", "86400", "3600", "n", "n", "0"]      # seconds; n = start() without argument
+
+
+def periodic_step(rng, nm):
+    """a start / stop / update call on a random map of either side"""
+    side, k = rng.choice("PPC"), rng.randrange(nm)
+    r = rng.random()
+    if r < 0.5:
+        return f"S.{side}.{k}.{rng.choice(PERIODS)}"
+    return f"E.{side}.{k}" if r < 0.75 else f"U.{side}.{k}"
+
+
 def gen_ops(tier, rng):
     n_hist = 400 if tier == "quick" else 5000
     cobs = [0x181, 0x182, 0x281, 0x381, 0x7FF, 0x800, 0x1FFFFFFF, 0x181]
@@ -544,7 +612,15 @@ def gen_ops(tier, rng):
                 steps.append(f"s.{k}")
             for tag in range(rng.randint(0, 2)):
                 steps.append(f"b.{k}.{10 * k + tag}")
+        # one history in three starts with periodic transmissions already running on producer maps
+        if rng.random() < 0.33:
+            for k in range(nm):
+                if rng.random() < 0.7:
+                    steps.append(f"S.P.{k}.{rng.choice(PERIODS[:5])}")
         for _ in range(rng.randint(3, 25 if tier == "quick" else 60)):
+            if rng.random() < 0.08:
+                steps.append(periodic_step(rng, nm))
+                continue
             k = rng.randrange(nm)
             r = rng.random()
             if r < 0.35:
@@ -600,17 +676,39 @@ def gen_ops(tier, rng):
     singles = [(t, ln) for t in c05.ALL_TYPES for ln in c05.lens_for(t)]
     pairs = [[a_] for a_ in singles] + [[a_, b_] for a_ in singles for b_ in rng.sample(singles, 3 if tier == "quick" else 12)
                                         if a_[1] + b_[1] <= 64]
-    for lay in pairs:
+    for n, lay in enumerate(pairs):
         steps = ["s.0", "b.0.1"]
+        # every other layout with a periodic transmission of the producer map running meanwhile
+        if n % 2:
+            steps.append(f"S.P.0.{rng.choice(PERIODS[:5])}")
         for i, (t, ln) in enumerate(lay):
             vs = c05.values_for(t, ln, rng, "quick")
-            for kind, v in rng.sample(vs, min(3, len(vs))):
+            for j, (kind, v) in enumerate(rng.sample(vs, min(3, len(vs)))):
                 steps += [f"w.0.{i}.{kind}.{v}", "t.0", "r.0"]
+                if n % 4 == 3 and j == 0:
+                    steps.append(rng.choice(["U.P.0", "E.P.0", "S.P.0.n", "S.P.0.0", "S.C.0.5", "E.C.0"]))
         mt = map_token(0x181, True, True, lay)
         yield f"x {mt} {mt} {'|'.join(steps)}"
 
 
-CORPUS = []
+# transmit / receive / reconfigure with and without a running periodic transmission, producer and consumer side
+_M1 = "385,1,1,3:16/5:8"
+_M2 = "385,1,1,2:4/6:16;386,1,1,5:8"
+CORPUS = [
+    # the producer transmits before, during and after a periodic transmission of the same map
+    f"x {_M1} {_M1} s.0|b.0.1|w.0.0.int.-2|w.0.1.int.7|t.0|r.0|S.P.0.3600|w.0.0.int.1234|w.0.1.int.200|t.0|r.0|"
+    "U.P.0|t.0|r.0|E.P.0|w.0.0.int.-32768|w.0.1.int.0|t.0|r.0",
+    # start without / with a zero period fails and stops the running task; restart; update and stop when idle
+    f"x {_M1} {_M1} s.0|U.P.0|E.P.0|S.P.0.n|w.0.1.int.9|t.0|r.0|S.P.0.7|S.P.0.n|t.0|S.P.0.0|t.0|p.0|r.0|S.P.0.n|t.0|r.0",
+    # the consuming side transmits periodically: frames are ignored until stop(); remote requests do not care
+    f"x {_M1} {_M1} s.0|b.0.4|w.0.0.int.5|t.0|r.0|S.C.0.86400|q.0|w.0.0.int.6|t.0|r.0|x.385.010203|r.0|W.0.385:0a0b0c|"
+    "U.C.0|r.0|E.C.0|q.0|t.0|r.0|W.0.385:0a0b0c|r.0",
+    # two maps, one of them running: the other is not affected; reconfiguration while running
+    f"x {_M2} {_M2} s.0|s.1|b.0.1|b.1.2|S.P.1.1|w.0.0.int.-3|w.0.1.int.48879|w.1.0.int.77|t.0|t.1|r.0|r.1|S.P.0.3600|"
+    "w.1.0.int.78|t.1|t.0|r.0|r.1|S.C.1.7|c.1.385.1.1|s.1|t.0|r.0|r.1|E.C.1|t.0|r.0|r.1|d.1.386.1.0|S.C.1.n|t.1|r.1|E.C.1|t.1|r.1",
+    # a consumer map without COB-ID cannot start; the older T spelling
+    f"x {_M1} n,1,1,3:16/5:8 S.C.0.5|r.0|T.0.1|c.0.385.1.1|s.0|T.0.1|t.0|r.0|T.0.0|t.0|r.0",
+]
 
 LEVEL_TEXT = ("Lean 4 theorems composing the C05 bit-field theorems with the exchange model: after any sequence of "
               "typed writes on the producer, transmission sends exactly the COB-ID and the current frame, and every "
@@ -618,7 +716,10 @@ LEVEL_TEXT = ("Lean 4 theorems composing the C05 bit-field theorems with the exc
               "sign-extended) with the frame's timestamp; a frame updates exactly the maps subscribed to and "
               "configured for its COB-ID (colliding COB-IDs: all of them) and invokes each of their callbacks once in "
               "order; a remote request is sent only for an enabled map that allows RTR; a waiting reader gets the "
-              "timestamp of a frame delivered meanwhile; tied to the code by differential histories over two nodes")
+              "timestamp of a frame delivered meanwhile; start / stop / update of a map's periodic transmission, anywhere "
+              "in a history of writes, change neither the single frame transmit() sends nor what the consumer reads "
+              "from it (a transmitting consumer map ignores frames until stop()); tied to the code by differential "
+              "histories over two nodes, every kind of step with and without a running periodic task")
 LEVEL_NOTE = ("trusted: Lean kernel + standard axioms; typed access is the C05/C04 model; threading.Condition is modelled "
               "as a monitor and scripted; real thread timing is outside the model")
 TECHNIQUE = "Lean 4 proof (composition of C05 field lemmas with dispatch, induction over write lists) + differential correspondence"
